@@ -325,7 +325,87 @@ def base_databases(rng, quick):
         return db
     out.append(("extras3", mk_extras3))
     out.append(("comparams", lambda: hc.load_docs([hc.cpsubset_doc(), hc.cpsubset2_doc(), hc.cpspec_doc()])))
+    # two containers from one blueprint: the same local ids name different objects in the two documents
+    out.append(("twins", lambda: hc.load_docs([TWIN.format(name="alpha", bits=8, sid=0x22),
+                                              TWIN.format(name="beta", bits=24, sid=0x2e)])))
     return out
+
+
+TWIN = ('<?xml version="1.0" encoding="UTF-8"?><ODX MODEL-VERSION="2.2.0" xmlns:xsi="http://www.w3.org/2001/XMLSchema-instance">'
+ '<DIAG-LAYER-CONTAINER ID="DLC.{name}"><SHORT-NAME>{name}</SHORT-NAME><BASE-VARIANTS><BASE-VARIANT ID="BV"><SHORT-NAME>{name}_bv</SHORT-NAME>'
+ '<DIAG-DATA-DICTIONARY-SPEC><DATA-OBJECT-PROPS>'
+ '<DATA-OBJECT-PROP ID="DOP.value"><SHORT-NAME>value</SHORT-NAME><COMPU-METHOD><CATEGORY>IDENTICAL</CATEGORY></COMPU-METHOD>'
+ '<DIAG-CODED-TYPE BASE-DATA-TYPE="A_UINT32" xsi:type="STANDARD-LENGTH-TYPE"><BIT-LENGTH>{bits}</BIT-LENGTH></DIAG-CODED-TYPE>'
+ '<PHYSICAL-TYPE BASE-DATA-TYPE="A_UINT32"/></DATA-OBJECT-PROP></DATA-OBJECT-PROPS></DIAG-DATA-DICTIONARY-SPEC>'
+ '<DIAG-COMMS><DIAG-SERVICE ID="DS.read"><SHORT-NAME>read</SHORT-NAME><REQUEST-REF ID-REF="RQ.read"/>'
+ '<POS-RESPONSE-REFS><POS-RESPONSE-REF ID-REF="PR.read"/></POS-RESPONSE-REFS></DIAG-SERVICE></DIAG-COMMS>'
+ '<REQUESTS><REQUEST ID="RQ.read"><SHORT-NAME>read_rq</SHORT-NAME><PARAMS>'
+ '<PARAM SEMANTIC="SERVICE-ID" xsi:type="CODED-CONST"><SHORT-NAME>sid</SHORT-NAME><BYTE-POSITION>0</BYTE-POSITION><CODED-VALUE>{sid}</CODED-VALUE>'
+ '<DIAG-CODED-TYPE BASE-DATA-TYPE="A_UINT32" xsi:type="STANDARD-LENGTH-TYPE"><BIT-LENGTH>8</BIT-LENGTH></DIAG-CODED-TYPE></PARAM>'
+ '<PARAM xsi:type="VALUE"><SHORT-NAME>value</SHORT-NAME><BYTE-POSITION>1</BYTE-POSITION><DOP-REF ID-REF="DOP.value"/></PARAM>'
+ '</PARAMS></REQUEST></REQUESTS>'
+ '<POS-RESPONSES><POS-RESPONSE ID="PR.read"><SHORT-NAME>read_pr</SHORT-NAME><PARAMS>'
+ '<PARAM SEMANTIC="SERVICE-ID" xsi:type="CODED-CONST"><SHORT-NAME>sid</SHORT-NAME><BYTE-POSITION>0</BYTE-POSITION><CODED-VALUE>{sid}</CODED-VALUE>'
+ '<DIAG-CODED-TYPE BASE-DATA-TYPE="A_UINT32" xsi:type="STANDARD-LENGTH-TYPE"><BIT-LENGTH>8</BIT-LENGTH></DIAG-CODED-TYPE></PARAM>'
+ '<PARAM xsi:type="VALUE"><SHORT-NAME>value</SHORT-NAME><BYTE-POSITION>1</BYTE-POSITION><DOP-REF ID-REF="DOP.value"/></PARAM>'
+ '</PARAMS></POS-RESPONSE></POS-RESPONSES>'
+ '</BASE-VARIANT></BASE-VARIANTS></DIAG-LAYER-CONTAINER></ODX>')
+
+
+def check_write_history(ck, bname, pdx):
+    """What is written depends on the database only, not on what this process wrote before: the same description in
+    containers of other names (documents renamed on the XML level, DOCREFs following) is written after the original
+    and must come back as itself."""
+    import odxtools
+    z = zipfile.ZipFile(pdx)
+    names = [n for n in z.namelist() if not n.endswith(".jinja2.orig")]
+    trees, ren = {}, {}
+    for n in names:
+        if ".odx" not in n:
+            continue
+        t = ET.fromstring(z.read(n))
+        trees[n] = t
+        c = t.find("DIAG-LAYER-CONTAINER")
+        if c is not None:
+            ren[c.findtext("SHORT-NAME")] = c.findtext("SHORT-NAME") + "_h"
+    if not ren:
+        return
+    d = os.path.join(SCRATCH, "hist")
+    shutil.rmtree(d, ignore_errors=True)
+    os.makedirs(d)
+    files = []
+    for n, t in trees.items():
+        c = t.find("DIAG-LAYER-CONTAINER")
+        if c is not None:
+            c.find("SHORT-NAME").text = ren[c.findtext("SHORT-NAME")]
+        for el in t.iter():
+            if el.get("DOCTYPE") == "CONTAINER" and el.get("DOCREF") in ren:
+                el.set("DOCREF", ren[el.get("DOCREF")])
+        fn = os.path.join(d, n)
+        ET.ElementTree(t).write(fn, encoding="utf-8", xml_declaration=True)
+        files.append(fn)
+    for n in names:
+        if n not in trees and n != "index.xml":
+            with open(os.path.join(d, n), "wb") as f:
+                f.write(z.read(n))
+    rep = {"base": bname, "history": "original written first, then the same description in renamed containers"}
+    ck.count(("history", bname))
+    try:
+        dbh = odxtools.load_directory(d)
+    except Exception as e:  # noqa
+        ck.note_broken(f"{bname}: the renamed copy of the written archive does not load: {type(e).__name__}: {e}")
+        return
+    dbh2, err, info = roundtrip(dbh, "hist")
+    if err:
+        ck.violation(f"{bname} in renamed containers, written after the original: the archive does not load back ({err}: {info})", rep)
+        return
+    dd = db_diff(dbh, dbh2)
+    if dd:
+        ck.violation(f"{bname} in renamed containers, written after the original: reloaded database differs at "
+                     f"{'.'.join(map(str, dd[0]))}: {dd[1]}", rep)
+        return
+    if behaviour(dbh) != behaviour(dbh2):
+        ck.violation(f"{bname} in renamed containers, written after the original: the reloaded database encodes / decodes differently", rep)
 
 
 def behaviour(db):
@@ -339,7 +419,8 @@ def behaviour(db):
                 continue
             d, e2, _ = cc.guarded(lambda: [(m.service.short_name, repr(cc.canon_value(m.param_dict))) for m in dl.decode(r)], timeout=5)
             out.append((dl.short_name, svc.short_name, r.hex(), d if e2 is None else type(e2).__name__))
-    return out
+    # (the order of db.diag_layers follows the order in which the documents were read; it is no behaviour of a layer)
+    return sorted(out, key=repr)
 
 
 # ---------------------------------------------------------------- text layer
@@ -451,6 +532,7 @@ def run(ck, rng, quick):
             continue
         # file orders and entry points
         check_entry_points(ck, rng, bname, db, info, quick)
+        check_write_history(ck, bname, info)
         # every dataclass field of every element class
         tab = field_table(db)
         keys = sorted(tab)
